@@ -184,9 +184,24 @@ def w_apply(s, op):
     raise ValueError(op)
 
 
+def peeks_content_length(hist):
+    """In every second case (a fixed function of the history as generated, so that a replay does the same) the
+    application looks at req.content_length before it first touches the stream (upload-limit check)."""
+    return len(hist) % 2 == 0
+
+
+def _peek_content_length(req):
+    try:
+        return req.content_length
+    except falcon.HTTPError:
+        return None
+
+
 class WsgiResource:
     def on_post(self, req, resp):
         c = CTX[0]
+        if peeks_content_length(c.hist):
+            _peek_content_length(req)
         for op in c.hist:
             s = req.bounded_stream            # looked up again every time: must be the same bounded view
             r = w_apply(s, op)
@@ -274,7 +289,7 @@ def _wsgi_case(rec, cfg, hist):
                          content_length=None, wsgi_input=inp)
     ctx = CTX[0] = Ctx(hist, inp)
     res = W.run_wsgi(wsgi_app(), env)
-    wit0 = _wsgi_wit(cfg, hist)
+    wit0 = dict(_wsgi_wit(cfg, hist), reads_content_length_first=peeks_content_length(hist))
     rec.count('class.wsgi.cl.' + clclass)
     if short:
         rec.count('class.wsgi.short_read_server')
@@ -496,6 +511,8 @@ def _obs(s):
 class AsgiResource:
     async def on_post(self, req, resp):
         c = CTX[0]
+        if peeks_content_length(c.hist):
+            _peek_content_length(req)
         for i, op in enumerate(c.hist):
             s = req.stream if i % 2 == 0 else req.bounded_stream     # one object, looked up again every time
             slot = ['started', None]                                  # operation started (+ partial progress)
@@ -563,7 +580,7 @@ def _asgi_case(rec, cfg, hist):
     scope = A.make_scope('POST', '/c07', headers=[('content-length', clh)] if clh is not None else [])
     ctx = CTX[0] = Ctx(hist, fault=fault)
     res = A.run_asgi_http(faulting_asgi_app, scope, events=events, max_steps=20000)
-    wit0 = _asgi_wit(cfg, hist)
+    wit0 = dict(_asgi_wit(cfg, hist), reads_content_length_first=peeks_content_length(hist))
     wire, ended = asgi_wire(events)
     # ---- classes
     rec.count('class.asgi.cl.' + ('absent' if cl is None else 'exact' if cl == len(wire) else
@@ -1171,7 +1188,11 @@ def run(rec):
                        'belongs to the body (the stream is empty, or the request is refused with 400); not judged on ASGI',
                        'sizes < -1 are outside the statement; -1/None are the \'everything that is left\' convention, also for '
                        'exhaust(chunk_size)',
-                       'after close() only the no-over-read and server-side monitors apply']
+                       'after close() only the no-over-read and server-side monitors apply',
+                       'one request = one environ/scope: rewriting req.env (wsgi.input, CONTENT_LENGTH) after the Request '
+                       'object exists is outside the statement (falcon snapshots req.stream and content_type at '
+                       'construction and caches header-derived attributes); in every second case the application reads '
+                       'req.content_length before touching the stream']
     quick = rec.tier == 'quick'
     idx = 0
     # ---------------- WSGI bounded-exhaustive
@@ -1254,7 +1275,7 @@ def run(rec):
     k = 0
     t_rand = time.monotonic()
     rand_budget = max(rec.budget_s * 0.15, rec.time_left() * 0.9)     # a guaranteed share, whatever the machine load
-    while time.monotonic() - t_rand < rand_budget:
+    while k < 50 or time.monotonic() - t_rand < rand_budget:      # at least two batches, however loaded the machine is
         for _ in range(25):
             cfg, h = random_wsgi(rng)
             wsgi_case(rec, cfg, h)
@@ -1317,7 +1338,14 @@ def replay(rec, w):
             limit = max(int(clh), 0) if clh else 0
         except ValueError:
             limit = 0
-        cfg = (wit['body'], clh, limit, wit['trailing'], wit['short'], 'replay')
+        clclass = 'replay'
+        if clh:
+            try:
+                if int(clh) < 0:
+                    clclass = 'invalid'
+            except ValueError:
+                clclass = 'invalid'
+        cfg = (wit['body'], clh, limit, wit['trailing'], wit['short'], clclass)
         ok = wsgi_case(rec, cfg, hist)
     else:
         clh = wit['content_length']
